@@ -29,6 +29,9 @@ theorem no_shared_writes : writes.all harmless = true := by decide
 theorem bound_pointers_local :
     boundInits.all (fun b => b.kind == "local-copy-of-q.bound" || b.kind == "local") = true := by decide
 
+/-- The query path touches no package-level variable (no shared free lists, caches or counters). -/
+theorem no_package_state : globalsUsed = [] := by decide
+
 /-- The three visitor constructions are still there, and every query function was found. -/
 theorem query_path_resolved : boundInits.length = 3 ∧ missingFuncs = [] ∧ reachable.length ≥ 15 := by decide
 
